@@ -22,7 +22,7 @@ func init() {
 			"(4) the state informers translate NotFound into the Delete* call and everything else into Update*; " +
 			"(5) all accesses to nodes, bindings, nodeNameToProviderID, nodeClaimNameToProviderID and nodePoolResources hold Cluster.mu (helpers inherit the lock from every caller).",
 		NotCovered: []string{"numeric equality of aggregates", "informer delivery semantics (level-triggered reconciliation is assumed)", "the duplicate provider-id corner (cleanup helpers index c.nodes[id] without a presence check)"},
-		Rules: c11Rules,
+		Rules:      c11Rules,
 	})
 }
 
